@@ -9,6 +9,7 @@ position).  Not decided: actual virtual times.
 """
 import ast
 
+from ..cfg import known_falsy
 from ..model import self_attr, unparse, walk_body_shallow
 from .util import value_origins, at, expand, const_value, fold, path_values, call_name, call_recv, calls_in, need, node_assign_value, node_writes_attr, norm, where
 
@@ -138,9 +139,57 @@ def run(ctx):
         incs[0].id, avoid=[cl[0][0].id]), "%s#count-per-retry" % rf.qname,
         "attempt count is not incremented exactly with every scheduled retry", where(rf, rf.node))
     fce = ctx.facts(hce)
-    r.check(all(("self.request_retry_max_attempts != 0 and attempt >= self.request_retry_max_attempts", False) in fce[n.id]
-                for n, c in cl2), "%s#retry-below-limit" % hce.qname, "commit retry scheduled beyond the attempt limit",
+    CFG_LIM = "self.request_retry_max_attempts"
+
+    def commit_limit_ok(n):
+        # `L != 0 and attempt >= L` is known false, L being the configured limit - or a local that holds it, possibly
+        # replaced by a positive constant on paths where the configured limit was seen to be 0 (a bound that exists
+        # only where the configuration sets none, e.g. for commits issued while shutting down)
+        import re
+        for t, pol in fce[n.id]:
+            m = re.match(r"^([\w.]+) != 0 and attempt >= ([\w.]+)$", t)
+            if pol or not m or m.group(1) != m.group(2):
+                continue
+            L = m.group(1)
+            if L == CFG_LIM:
+                return True
+            if not L.isidentifier():
+                continue
+            tests = [x for x in cc.nodes if x.kind == "test" and norm(x.stmt.test) == t]
+            for tn in tests:
+                og = value_origins(cc, tn.id, ast.Name(id=L, ctx=ast.Load()), params=hce.params)
+                if not og:
+                    break
+                for dn, e in og:
+                    if norm(e) == CFG_LIM:
+                        continue
+                    pos = isinstance(e, ast.Constant) and isinstance(e.value, int) and not isinstance(e.value, bool) and e.value > 0
+                    zero_seen = known_falsy(fce[dn], L) and all(norm(e2) == CFG_LIM for _d2, e2 in (value_origins(
+                        cc, [p_ for p_, _l in cc.pred[dn]][0], ast.Name(id=L, ctx=ast.Load()), params=hce.params) or [(0, ast.Constant(value=None))]))
+                    if not (pos and zero_seen):
+                        break
+                else:
+                    continue
+                break
+            else:
+                if tests:
+                    return True
+        return False
+
+    r.check(all(commit_limit_ok(n) for n, c in cl2), "%s#retry-below-limit" % hce.qname, "commit retry scheduled beyond the attempt limit",
             where(hce, cl2[0][1]))
+
+    # ---- R6 the limits and policies compared above are the configured ones
+    r = ctx.rule("R6", "retry limit, delays, reset policy and buffer cap hold what the constructor was given: no other writer", 5, "A")
+    ci = prog.cls(CONS)
+    for attr in ("request_retry_max_attempts", "retry_init_delay", "retry_max_delay", "auto_offset_reset", "max_buffer_size"):
+        ws = [(f, node) for f, k, node in prog.attr_accesses(ci, attr, False) if k == "write"]
+        inits = [(f, node) for f, node in ws if f.name == "__init__"]
+        others = [(f, node) for f, node in ws if f.name != "__init__"]
+        r.check(bool(inits) and not others, "%s#as-configured(%s)" % (CONS, attr),
+                "%s is overwritten outside the constructor (%s)" % (attr, ", ".join(sorted({f.qname for f, _n in others}))),
+                where(others[0][0], others[0][1]) if others else "", "the limit/policy applied to later requests - and to a consumer that is "
+                "started again - is no longer the configured one (e.g. `retry for ever` silently becomes two attempts)")
 
     # ---- R4 reset policy
     r = ctx.rule("R4", "out-of-range: fail when no policy, else restart from the policy constant resolved by an offset "
